@@ -67,6 +67,9 @@ pub struct Case {
     pub mem_infos: Vec<(u64, u64, u32)>,
     pub cpuinfo: Vec<u8>,
     pub lsb: Vec<u8>,
+    pub limits: Vec<u8>,
+    pub soft: Vec<u8>,
+    pub maps: Vec<u8>,
 }
 
 pub const ANCHOR_WORD: u64 = 0x7000_0100;
@@ -401,6 +404,15 @@ pub fn build_dump(c: &Case) -> Vec<u8> {
     }
     if !c.lsb.is_empty() {
         dump = dump.set_linux_lsb_release(&c.lsb);
+    }
+    if !c.limits.is_empty() {
+        dump = dump.set_linux_proc_limits(&c.limits);
+    }
+    if !c.soft.is_empty() {
+        dump = dump.set_soft_errors(std::str::from_utf8(&c.soft).expect("soft errors utf8"));
+    }
+    if !c.maps.is_empty() {
+        dump = dump.set_linux_maps(&c.maps);
     }
     dump = dump.add_system_info(SystemInfo::new(e).set_processor_architecture(c.arch).set_platform_id(c.platform));
     for (base, size, name) in &c.modules {
